@@ -724,6 +724,7 @@ package memberlist
 //@   inv Q-unborn [C10]: forall p *limitedBroadcast :: !allocated(p) ==> $fin[p] == 0
 //@   assume room: q.idGen < 9223372036854775807     // the id generator does not wrap (2^63 broadcasts without the queue ever draining)
 //@   inv Q-tree [C10]: q.tq != nil ==> allocated(q.tq) && treeLen(q.tq) >= 0 && (forall p *limitedBroadcast :: inTree(q.tq, p) ==> allocated(p) && p.b != nil && p.transmits >= 0)
+//@   inv Q-len [C10]: q.tq != nil ==> (forall p *limitedBroadcast :: inTree(q.tq, p) ==> p.msgLen == msgLenOf(p.b))     // the ordering key of an entry is the length of its message
 //@   inv Q-tm [C10]: q.tq == nil ==> (forall n string :: !has(q.tm, n))
 //@   inv Q-tm2 [C10]: q.tq != nil ==> q.tm != nil
 //@   inv Q-idx1 [C10]: q.tq != nil ==> (forall n string :: has(q.tm, n) ==> inTree(q.tq, q.tm[n]) && q.tm[n].name == n && n != "")
@@ -818,7 +819,7 @@ package memberlist
 //@   loop #1 invariant rm [C10]: forall i int :: 0 <= i && i < len(remove) ==> allocated(remove[i]) && remove[i].name == ""
 
 // the tree part of the lock invariant, for program points inside an operation
-//@ pure treeOK(q *TransmitLimitedQueue) bool := q.tq != nil && q.tm != nil && allocated(q.tq) && treeLen(q.tq) >= 0 && (forall p *limitedBroadcast :: inTree(q.tq, p) ==> allocated(p) && p.b != nil && p.transmits >= 0 && (p.name != "" ==> implements(p.b, NamedBroadcast)))
+//@ pure treeOK(q *TransmitLimitedQueue) bool := q.tq != nil && q.tm != nil && allocated(q.tq) && treeLen(q.tq) >= 0 && (forall p *limitedBroadcast :: inTree(q.tq, p) ==> allocated(p) && p.b != nil && p.transmits >= 0 && p.msgLen == msgLenOf(p.b) && (p.name != "" ==> implements(p.b, NamedBroadcast)))
 //@ pure idxOK(q *TransmitLimitedQueue) bool := (forall n string :: has(q.tm, n) ==> inTree(q.tq, q.tm[n]) && q.tm[n].name == n && n != "") && (forall p *limitedBroadcast :: inTree(q.tq, p) && p.name != "" ==> has(q.tm, p.name) && q.tm[p.name] == p)
 // items of the tree and items held out of it (ghost $held) have distinct ids issued by the generator, and distinct names
 //@ ghost $held intmap
@@ -826,7 +827,7 @@ package memberlist
 //@ ghost $ridx intmap      // position of an invalidated item in queueBroadcast's remove list
 //@ pure mine(q *TransmitLimitedQueue, p *limitedBroadcast) bool := inTree(q.tq, p) || $held[p] == 1
 //@ pure idsOK(q *TransmitLimitedQueue) bool := (forall p *limitedBroadcast :: mine(q, p) ==> 1 <= p.id && p.id <= q.idGen) && (forall p *limitedBroadcast, r *limitedBroadcast :: mine(q, p) && mine(q, r) && p != r ==> p.id != r.id && (p.name != "" ==> p.name != r.name))
-//@ pure heldOK(q *TransmitLimitedQueue) bool := forall p *limitedBroadcast :: $held[p] == 1 ==> allocated(p) && p.b != nil && p.transmits >= 0 && (p.name != "" ==> implements(p.b, NamedBroadcast)) && !inTree(q.tq, p) && (p.name != "" ==> !has(q.tm, p.name))
+//@ pure heldOK(q *TransmitLimitedQueue) bool := forall p *limitedBroadcast :: $held[p] == 1 ==> allocated(p) && p.b != nil && p.transmits >= 0 && p.msgLen == msgLenOf(p.b) && (p.name != "" ==> implements(p.b, NamedBroadcast)) && !inTree(q.tq, p) && (p.name != "" ==> !has(q.tm, p.name))
 
 //@ func (*TransmitLimitedQueue).GetBroadcasts(q, overhead, limit)
 //@   safety [C10,C11,C13,C20]
@@ -840,6 +841,10 @@ package memberlist
 //@   loop #1 invariant cap [C10,C11]: (len(toSend) > 0 ==> bytesUsed <= limit) && allocated(toSend)
 //@   at call append #1: lemma-after frame [C10,C11]: len(res) == len(toSend) + 1 && sumlens(res, len(toSend)) == sumlens(toSend, len(toSend)) && len(res[len(toSend)]) == len(msg)
 //@   at call (*github.com/google/btree.BTree).AscendRange: iter-invariant fits [C10,C11]: *keep == nil || (inTree(q.tq, *keep) && msgLenOf((*keep).b) <= *free)
+//@   at call (*github.com/google/btree.BTree).AscendRange: iter-invariant first-fit [C10]: (*keep == nil <==> !stopped()) && (*keep != nil ==> visited(*keep)) && (forall p *limitedBroadcast :: visited(p) && p != *keep ==> msgLenOf(p.b) > *free)
+//@   at call (*github.com/google/btree.BTree).AscendRange: lemma-after preferred [C10]: *keep != nil ==> (*keep).transmits == transmits && (forall p *limitedBroadcast :: inTree(q.tq, p) && p.transmits == transmits && msgLenOf(p.b) <= *free ==> !btreeLess(p, *keep))     // what is handed out next is, among the entries of the current tier that still fit, the longest and then the newest
+//@   at call (*github.com/google/btree.BTree).AscendRange: lemma-after tier-exhausted [C10]: *keep == nil ==> (forall p *limitedBroadcast :: inTree(q.tq, p) && p.transmits == transmits ==> msgLenOf(p.b) > *free)     // the walk moves on to more-transmitted entries only when nothing less transmitted fits any more
+//@   loop #1 invariant lower-tiers-exhausted [C10]: overhead >= 0 ==> (forall p *limitedBroadcast :: inTree(q.tq, p) && p.transmits < transmits ==> msgLenOf(p.b) > limit - bytesUsed - overhead)     // less-transmitted entries come first: by the time the walk looks at a tier, nothing in the tiers below it fits any more
 //@   at call Broadcast.Finished: assert limit-reached [C10]: (*keep).transmits + 1 >= transmitLimit
 //@   at call append #2: assert below-limit [C10]: (*keep).transmits < transmitLimit
 //@   at call append #2: set $held := upd($held, *keep, 1)
